@@ -71,7 +71,7 @@ def run(ctx):
 
     # M3
     tr = ctx.path("ed_trace.ndjson")
-    ncases, fullevery = (100, 10) if ctx.thorough else (24, 12)
+    ncases, fullevery = (200, 10) if ctx.thorough else (24, 12)
     ctx.run_bin(binary, ["ed25519-trace", "--seed", ctx.seed, "--cases", ncases, "--fullevery", fullevery, "--out", tr])
     events = kat_events + vlib.read_ndjson(tr)
     cs = cases(events)
